@@ -99,8 +99,13 @@ func (g *Global) addMapMods(out map[string]modInfo, mt *types.Map, mutates bool)
 	g.noteKinds(p+"#val", mt.Elem())
 }
 
-// isFreshBase: the address is derived from an allocation made in the same function.
+// isFreshBase: the address is derived from an allocation made in the same function (through field/element addressing,
+// reslicing, and phis all of whose inputs are).
 func isFreshBase(v ssa.Value) bool {
+	return freshBase(v, map[ssa.Value]bool{})
+}
+
+func freshBase(v ssa.Value, seen map[ssa.Value]bool) bool {
 	for {
 		switch x := v.(type) {
 		case *ssa.Alloc, *ssa.MakeSlice, *ssa.MakeMap:
@@ -111,6 +116,17 @@ func isFreshBase(v ssa.Value) bool {
 			v = x.X
 		case *ssa.Slice:
 			v = x.X
+		case *ssa.Phi:
+			if seen[x] {
+				return true // cycle through the phi itself: decided by the other inputs
+			}
+			seen[x] = true
+			for _, e := range x.Edges {
+				if !freshBase(e, seen) {
+					return false
+				}
+			}
+			return true
 		default:
 			return false
 		}
@@ -231,7 +247,14 @@ func (g *Global) callMods(out map[string]modInfo, c *ssa.CallCommon, closureOf f
 				}
 			}
 		}
-		for n, mi := range g.modsetOfFunc(f) {
+		if strings.HasPrefix(g.funcKey(f), "slices.Sort") && len(c.Args) >= 1 && isFreshBase(c.Args[0]) {
+			// sorting a slice of an array allocated by this very function: allocation-only effect for the callers
+			for n, mi := range g.modsetOfFunc(f) {
+				addMod(out, n, mi.sort, false)
+			}
+			return
+		}
+		for n, mi := range g.downgradeByFrames(g.funcKey(f), g.modsetOfFunc(f)) {
 			addMod(out, n, mi.sort, mi.mutates)
 		}
 	case *ssa.MakeClosure:
@@ -249,6 +272,50 @@ func (g *Global) callMods(out map[string]modInfo, c *ssa.CallCommon, closureOf f
 		}
 		// unknown function value: handled (or rejected) at translation time
 	}
+}
+
+// downgradeByFrames: a frame clause without objects ("frame T:" / "frame elems T:") is a verified (or, for trusted
+// functions, assumed and listed) promise that no pre-existing object of that heap is written; callers, direct and
+// transitive, may therefore treat the effect on those heaps as allocation-only.
+func (g *Global) downgradeByFrames(key string, ms map[string]modInfo) map[string]modInfo {
+	fc := g.contracts.Funcs[key]
+	if fc == nil || len(fc.Frames) == 0 || len(ms) == 0 {
+		return ms
+	}
+	var out map[string]modInfo
+	for _, fcl := range fc.Frames {
+		if len(fcl.Exprs) != 0 {
+			continue
+		}
+		prefix := "F$" + fcl.TypeKey + "."
+		if fcl.Elems {
+			prefix = "E$" + fcl.TypeKey
+		}
+		for n, mi := range ms {
+			if !mi.mutates {
+				continue
+			}
+			if fcl.Elems {
+				if n != prefix && !strings.HasPrefix(n, prefix+".") && !strings.HasPrefix(n, prefix+"#") {
+					continue
+				}
+			} else if !strings.HasPrefix(n, prefix) {
+				continue
+			}
+			if out == nil {
+				out = make(map[string]modInfo, len(ms))
+				for k, v := range ms {
+					out[k] = v
+				}
+			}
+			mi.mutates = false
+			out[n] = mi
+		}
+	}
+	if out == nil {
+		return ms
+	}
+	return out
 }
 
 // modsetOfFunc: heap names a function may write (transitively), by contract if trusted/external.
